@@ -35,6 +35,7 @@ func runC05(c *an.Ctx) {
 	ruleR5(c)
 	ruleR6(c)
 	ruleR7(c)
+	ruleR7Assume(c)
 }
 
 func callNamed(in ssa.Instruction, name string) (ssa.CallInstruction, bool) {
@@ -309,8 +310,9 @@ func ruleR2(c *an.Ctx) {
 					cl, ok := r.X.(*ssa.Call)
 					return ok && cl.Call.StaticCallee() != nil && cl.Call.StaticCallee().Name() == "Signal"
 				})
-				g = gq || (gr && gdead)
-				want = "state == Queued, or state == Running and the recorded pid does not answer signal 0"
+				gnopid := guarded(in, noPidRecorded(p))
+				g = gq || (gr && gdead) || (gr && gnopid)
+				want = "state == Queued, or state == Running and the recorded pid does not answer signal 0 (or no pid was recorded)"
 			}
 			c.Check("R2", "reset-guard@"+name, in.Pos(), g, "a metadata object may be reset only under "+want)
 			// never for a complete object
@@ -396,9 +398,75 @@ func ruleR3(c *an.Ctx) {
 				return false
 			}
 			_, f := an.FieldOfAddr(st.Addr)
-			return f == uniq && an.IsStringConst(st.Val, "")
+			if f != uniq {
+				return false
+			}
+			if an.IsStringConst(st.Val, "") {
+				return true
+			}
+			_, isCall := an.Strip(st.Val).(*ssa.Call)
+			return isCall
 		})
-		c.Check("R3", "fresh-uniquifier-on-reset@(*Metadata).uncheckedReset", call.Pos(), ok, "a reset attempt must get a new uniquifier (cleared before uniquify()), so a surviving old process cannot clobber the new attempt; "+c.WitnessString(w))
+		c.Check("R3", "fresh-uniquifier-on-reset@(*Metadata).uncheckedReset", call.Pos(), ok, "a reset attempt must get a new uniquifier (the field is cleared or regenerated before uniquify()), so a surviving old process cannot clobber the new attempt; "+c.WitnessString(w))
+	}
+	// the new uniquifier must be able to differ from the previous one even when the process id and the
+	// clock reading are the same (a reset in the same second as the first attempt): the generator has
+	// to know the previous value, compare with it, or draw on a source that changes between two calls
+	// (a counter, random bits).  A pure function of (pid, time) gives the second attempt the first
+	// one's directory and journal name: the stale attempt's notifications pass the cache() test.
+	{
+		gen := c.P.Func(pkgCore, "makeUniquifier")
+		knows := ""
+		loadsUniq := func(v ssa.Value) bool { return an.LoadsField(an.Strip(v), uniq) }
+		for _, fn := range []*ssa.Function{unchecked, uniquify} {
+			an.Instrs(fn, func(in ssa.Instruction) {
+				switch x := in.(type) {
+				case *ssa.Store:
+					if _, f := an.FieldOfAddr(x.Addr); f != uniq {
+						return
+					}
+					if cl, ok := an.Strip(x.Val).(*ssa.Call); ok && fn == unchecked {
+						for _, a := range cl.Call.Args {
+							if loadsUniq(a) {
+								knows = "the regenerated value is computed from the previous one (" + an.FnName(fn) + ")"
+							}
+						}
+					}
+				case *ssa.BinOp:
+					if (x.Op == token.EQL || x.Op == token.NEQ) && (loadsUniq(x.X) || loadsUniq(x.Y)) {
+						other := x.X
+						if loadsUniq(x.X) {
+							other = x.Y
+						}
+						if cl, isCall := an.Strip(other).(*ssa.Call); isCall && gen != nil && cl.Call.StaticCallee() == gen {
+							knows = "a generated value is compared with the current one (" + an.FnName(fn) + ")"
+						}
+					}
+				}
+			})
+		}
+		if gen != nil && knows == "" {
+			an.Instrs(gen, func(in ssa.Instruction) {
+				if cl := an.AsCallAny(in); cl != nil {
+					if f := cl.Common().StaticCallee(); f != nil && f.Pkg != nil {
+						switch f.Pkg.Pkg.Path() {
+						case "sync/atomic", "math/rand", "math/rand/v2", "crypto/rand":
+							knows = "the generator draws on " + f.Pkg.Pkg.Path()
+						}
+					}
+				}
+				if st, ok := in.(*ssa.Store); ok {
+					if _, isG := st.Addr.(*ssa.Global); isG {
+						knows = "the generator advances a package-level counter"
+					}
+				}
+			})
+		}
+		detail := knows
+		if knows == "" {
+			detail = "the uniquifier of a reset attempt is generated without reference to the previous one, from values (process id, clock in seconds) that are the same when the reset happens within the second in which the first attempt was started: both attempts get the same directory and journal name, and a notification written by the stale attempt is accepted for the new one"
+		}
+		c.Check("R3", "new-uniquifier-can-differ-from-previous@(*Metadata).uncheckedReset", unchecked.Pos(), knows != "", detail)
 	}
 	// uniquify generates one when empty
 	gen := c.P.Func(pkgCore, "makeUniquifier")
@@ -730,26 +798,34 @@ func ruleR7(c *an.Ctx) {
 	type inst struct {
 		fn, what string
 		cond     func(an.Rel) bool
+		shared   bool
 	}
 	for _, it := range []inst{
-		{"(*Metadata).checkedReset", "state == Failed", stIs("Failed")},
+		{"(*Metadata).checkedReset", "state == Failed", stIs("Failed"), false},
 		{"(*Metadata).restartQueuedLocal", "exists(queued_locally)", func(r an.Rel) bool {
 			return r.Op == token.ILLEGAL && r.Truth && existsCallOf(p, r.X, "QueuedLocally")
-		}},
-		{"(*Metadata).restartLocal", "state == Queued", stIs("Queued")},
+		}, false},
+		{"(*Metadata).restartLocal", "state == Queued", stIs("Queued"), false},
 		{"(*Metadata).restartLocal", "pid does not answer signal 0", func(r an.Rel) bool {
 			if r.Op != token.NEQ || !an.IsNil(r.Y) {
 				return false
 			}
 			cl, ok := r.X.(*ssa.Call)
 			return ok && cl.Call.StaticCallee() != nil && cl.Call.StaticCallee().Name() == "Signal"
-		}},
+		}, false},
+		// the job monitor creates _log (state Running) before it records its pid in _jobinfo: a job
+		// killed in between has state Running and pid 0 - there is no process to probe and nothing
+		// will ever finish it
+		{"(*Metadata).restartLocal", "state Running, jobinfo readable, no pid recorded", noPidRecorded(p), true},
 	} {
 		fn := c.NeedFunc(pkgCore, it.fn)
 		if fn == nil {
 			continue
 		}
 		n, pos, why := mustAfterEdge(p, fn, it.cond, resets)
+		if it.shared {
+			n, pos, why = mustAfterEdgeShared(p, fn, it.cond, resets)
+		}
 		key := "reset-follows(" + it.what + ")@" + it.fn
 		if n == 0 {
 			c.Info("R7", key, fn.Pos(), "no edge with this condition found in the entry point or its private helpers; not decided")
@@ -759,5 +835,73 @@ func ruleR7(c *an.Ctx) {
 			pos = fn.Pos()
 		}
 		c.Check("R7", key, pos, why == "", "once "+it.what+" holds, every path to the entry point's return must reset the metadata object (the job can never finish otherwise and the restarted pipestance waits forever): "+why)
+	}
+}
+
+// ruleR7Assume: whatever way restartLocal tests the state, a Queued job is reset.  R7's edge-based
+// instances say nothing when the edge they look for no longer exists (`if state != Running { return }`
+// has no `state == Queued` edge at all); here the state value is assumed to be Queued and every
+// conditional edge that contradicts the assumption is pruned.
+func ruleR7Assume(c *an.Ctx) {
+	p := c.P
+	fn := c.NeedFunc(pkgCore, "(*Metadata).restartLocal")
+	unchecked := c.NeedFunc(pkgCore, "(*Metadata).uncheckedReset")
+	queued := p.Const(pkgCore, "Queued")
+	if fn == nil || unchecked == nil || queued == nil {
+		return
+	}
+	resets := func(in ssa.Instruction) bool { return an.CalleeIs(in, unchecked) }
+	n := 0
+	for _, m := range familyOf(p, fn, 2) {
+		an.Instrs(m, func(in ssa.Instruction) {
+			cl, ok := in.(*ssa.Call)
+			if !ok || cl.Call.StaticCallee() == nil || (cl.Call.StaticCallee().Name() != "getState" && cl.Call.StaticCallee().Name() != "_getStateNoLock") {
+				return
+			}
+			var st, okv ssa.Value
+			var last ssa.Instruction = cl
+			for _, r := range an.Referrers(cl) {
+				if ex, isEx := r.(*ssa.Extract); isEx {
+					if ex.Index == 0 {
+						st = ex
+					} else {
+						okv = ex
+					}
+					if ex.Block() == cl.Block() {
+						last = ex
+					}
+				}
+			}
+			if st == nil {
+				return
+			}
+			// start after the later of the extracts in the call's block
+			for _, x := range cl.Block().Instrs {
+				if ex, isEx := x.(*ssa.Extract); isEx && ex.Tuple == ssa.Value(cl) {
+					last = ex
+				}
+			}
+			n++
+			facts := []an.Rel{{Op: token.EQL, X: st, Y: ssa.NewConst(queued.Val(), queued.Type())}}
+			if okv != nil {
+				facts = append(facts, an.Rel{Op: token.ILLEGAL, X: okv, Truth: true})
+			}
+			why := mustAssuming(p, fn, last, facts, resets)
+			c.Check("R7", "reset-follows(assuming state == Queued)@(*Metadata).restartLocal", cl.Pos(), why == "",
+				"a job that was handed to the local job manager but whose process never wrote its log is Queued; after a restart no process exists for it, so every path through restartLocal on which the state is Queued must reset it (otherwise the restarted pipestance waits forever): "+why)
+		})
+	}
+	c.Floor("R7", "state reads in restartLocal", n, 1)
+}
+
+// noPidRecorded: the relation JobInfo.Pid == 0.
+func noPidRecorded(p *an.Prog) func(an.Rel) bool {
+	pid := p.Field(pkgCore, "JobInfo", "Pid")
+	return func(r an.Rel) bool {
+		if r.Op != token.EQL || pid == nil {
+			return false
+		}
+		isPid := func(v ssa.Value) bool { _, f := an.FieldLoad(an.Strip(v)); return f == pid }
+		return (isPid(r.X) && an.IsIntConst(r.Y, 0)) || (isPid(r.Y) && an.IsIntConst(r.X, 0))
 	}
 }
